@@ -82,7 +82,9 @@ theorem C10_nocrash (h : Handler) (s : ExecState) (f : FrameIn) : (execFrame h s
           · exact handleChanMessage_no_crash s f.params
           · split
             · exact handleChanClose_no_crash s f.params
-            · split <;> rfl
+            · split
+              · split <;> rfl
+              · rfl
 
 /-- … and therefore no finite sequence of frames does. -/
 theorem C10_nocrash_seq (h : Handler) (fs : List FrameIn) (s : ExecState) :
